@@ -23,6 +23,14 @@ def generate(rng, tier, index):
         shp = [rng.randrange(1, 6) for _ in range(D)]
         shp[dim % D] = F
         shapes.append(shp)
+    if rng.random() < 0.25:
+        # the feature vector is the last dimension (the default); tensors of different rank in one history
+        dim = -1
+        shapes = []
+        for _ in range(n):
+            Di = rng.choice([1, 2, 2, 3])
+            shapes.append([rng.randrange(1, 6) for _ in range(Di - 1)] + [F])
+        D = max(len(s_) for s_ in shapes)
     sc = {
         "D": D, "dim": dim, "F": F, "shapes": shapes,
         "dtype": rng.choice(["float32", "float32", "float64"]),
@@ -130,7 +138,11 @@ def execute(sc):
                     if not (sc["interim_store"] and pooled(seen, dim).shape[0] >= 2 and tape.choose(3) == 2):
                         break
                     b = tape.choose(2) == 1
-                    mvn.store(delete_stats=False, bessel=b)
+                    try:
+                        mvn.store(delete_stats=False, bessel=b)
+                    except Exception as e:  # noqa
+                        res.violate("store.raised", f"store(delete_stats=False, bessel={b}) raised {type(e).__name__}: {e} with {pooled(seen, dim).shape[0]} frames accumulated", bessel=b)
+                        return res
                     part = pooled(seen, dim)
                     if not np.allclose(mvn.mean.double().numpy(), part.mean(0), **tol_for(sc, part)):
                         res.violate("interim.mean", f"store(delete_stats=False, bessel={b}) after {len(seen)} chunks does not give the mean of the frames accumulated so far", bessel=b)
